@@ -1,2 +1,9 @@
 // `Display::to_string` of the error type (text of an error message: not modelled; only that the call returns)
 impl DeserializeError { #[verifier::external_body] pub fn to_string(&self) -> (r: String) { unimplemented!() } }
+
+/// `<&[u8] as TryInto<[u8; N]>>::try_into` for N = 4 / 16 (std, ASSUMED; R-opcall): Ok exactly when the slice has N elements; the array then holds them in order
+pub struct TryFromSliceError_ { pub u: u8 }
+#[verifier::external_body] pub fn slice_to_array4_(s: &[u8]) -> (r: Result<[u8; 4], TryFromSliceError_>)
+    ensures r is Ok <==> s@.len() == 4, r is Ok ==> r->Ok_0@ == s@ { unimplemented!() }
+#[verifier::external_body] pub fn slice_to_array16_(s: &[u8]) -> (r: Result<[u8; 16], TryFromSliceError_>)
+    ensures r is Ok <==> s@.len() == 16, r is Ok ==> r->Ok_0@ == s@ { unimplemented!() }
